@@ -905,7 +905,7 @@ def main(run):
     run.require("named_drive_runs", judge.tag_runs["named-drive"], run.n(15, 100))
     run.require("quoted_folder_path_runs", judge.tag_runs["quoted-folder-path"], run.n(12, 100))
     run.require("max_depth_seen", c["max_depth_seen"], 5)
-    run.require("max_children_seen", c["max_children_seen"], 12)
+    run.require("max_children_seen", c["max_children_seen"], run.n(10, 12))
     run.require("risky_fraction_runs", judge.tag_runs["bound:fraction-at-bound"], run.n(5, 30))
     run.require("responses_opened", c["responses_opened"], 1000)
 
